@@ -172,6 +172,46 @@ func checkFilter(r *Run, prog *Program, a *Anchors, pfx string) {
 					}
 				}
 			}
+			// no element taken out of the input is passed over: each is the item of one of the evaluations
+			for _, ev := range sm.Events() {
+				if ev.Instr == nil || ev.Res == nil {
+					continue
+				}
+				fetch := false
+				switch {
+				case (isReflectMethod(ev.Callee, "Index") || isReflectMethod(ev.Callee, "MapIndex")) && len(ev.Args) >= 1 && ev.Args[0].Key() == rv.Key():
+					fetch = true
+				case isIterPart(sm.St, ev.Res, rv, "Value"):
+					fetch = true
+				}
+				if !fetch {
+					continue
+				}
+				seen := false
+				for _, k := range items {
+					if k == ev.Res.Key() {
+						seen = true
+					}
+				}
+				if !seen {
+					// refused outright — the filtering ends here with an error and nothing is evaluated afterwards — is not passed over
+					later := false
+					past := false
+					for _, e2 := range sm.Events() {
+						if e2.Instr == ev.Instr && e2.Res != nil && e2.Res.Key() == ev.Res.Key() {
+							past = true
+							continue
+						}
+						if past && e2.Instr != nil && e2.Callee == evalM {
+							later = true
+						}
+					}
+					if !later && res.IsNil() && errClass(sm, err) == "nonnil" {
+						continue
+					}
+					probs = append(probs, "an element taken out of the input ("+shortKey(ev.Res)+") is passed over without being evaluated: every element is judged by Evaluate alone")
+				}
+			}
 			// insertions: only when the element evaluated true, and the very item (and key) evaluated
 			switch {
 			case sc.o == oT:
@@ -387,6 +427,7 @@ func init() {
 		}
 		checkPanicSites(r, prog, a, "c17", roots, nil, false, 10)
 		checkResultShape(r, prog, a, a.CreateFi, "c17")
+		checkFilterText(r, prog, a, "c17")
 		// "the elements for which Evaluate is true" presupposes that Evaluate is a function of the element alone: the same
 		// verdict whichever elements were looked at before, in this call or an earlier one
 		r.importing = "C13"
@@ -448,4 +489,31 @@ func evaluatorCtorHelper(prog *Program, a *Anchors, f *ssa.Function) bool {
 		}
 	}
 	return false
+}
+
+// checkFilterText: "the filter's expression" is the text CreateFilter was given: what it hands to the evaluator's
+// constructor (or to the helper the two constructors share) is that very string, not something computed from it.
+func checkFilterText(r *Run, prog *Program, a *Anchors, pfx string) {
+	n := 0
+	for _, b := range a.CreateFi.Blocks {
+		for _, ins := range b.Instrs {
+			c, ok := ins.(*ssa.Call)
+			if !ok {
+				continue
+			}
+			callee := c.Call.StaticCallee()
+			if callee == nil || !(callee == a.CreateEv || evaluatorCtorHelper(prog, a, callee)) {
+				continue
+			}
+			for _, arg := range c.Call.Args {
+				if !types.Identical(arg.Type().Underlying(), types.Typ[types.String]) {
+					continue
+				}
+				n++
+				r.Check(pfx+".filter-text", "CreateFilter:"+callee.Name(), prog.pos(c.Pos()), isCtorExpression(prog, a, arg, 0),
+					"CreateFilter hands "+describeRoot(prog, arg)+" to "+callee.Name()+", not the expression it was given: the filter would select by another expression than Evaluate of the same text")
+			}
+		}
+	}
+	r.Check(pfx+".filter-text", "census", prog.pos(a.CreateFi.Pos()), n >= 1, "CreateFilter does not hand an expression text to the evaluator's constructor")
 }
